@@ -191,4 +191,72 @@ func runC05(e *env) {
 			state = st
 		}
 	}
+	c05Orders(e, newRng(e.seed, 55))
+}
+
+// ---------- one set of updates, two delivery orders ----------
+
+// c05EmitOrder delivers the updates `ups` to two replicas that both start empty, in the orders p1 and p2
+// (gossip merges), and records both end states. C05 does NOT claim that they agree when tokens collide
+// (Lean: PC05.winner_depends_on_delivery_order_witness); the line ties the witness to the real code.
+func c05EmitOrder(e *env, ups []*ring.Desc, p1, p2 []int) {
+	run := func(p []int) *ring.Desc {
+		s := ring.NewDesc()
+		for _, i := range p {
+			s, _ = implMerge(s, ups[i], false, 0)
+		}
+		return s
+	}
+	enc := make([]string, len(ups))
+	for i, u := range ups {
+		enc[i] = encDesc(u)
+	}
+	ord := func(p []int) string {
+		o := make([]string, len(p))
+		for i, x := range p {
+			o[i] = strconv.Itoa(x)
+		}
+		return strings.Join(o, ",")
+	}
+	e.emit("C05.order", strings.Join(enc, "|"), ord(p1), ord(p2), "-", encDesc(run(p1)), encDesc(run(p2)))
+}
+
+func c05One(id string, ts int64, st ring.InstanceState, toks ...uint32) *ring.Desc {
+	d := ring.NewDesc()
+	d.Ingesters[id] = ring.InstanceDesc{Id: id, Timestamp: ts, State: st, Tokens: toks}
+	return d
+}
+
+func c05Orders(e *env, r *rng) {
+	// the witness of PC05.winner_depends_on_delivery_order_witness, verbatim
+	w := []*ring.Desc{c05One("a", 1, ring.ACTIVE, 7), c05One("b", 1, ring.ACTIVE, 7), c05One("a", 2, ring.LEAVING, 7)}
+	c05EmitOrder(e, w, []int{0, 1, 2}, []int{2, 1, 0})
+	// the witnesses of PC03.merge_diverges_on_token_handover (a token handed over at disjoint times)
+	h := []*ring.Desc{c05One("a", 1, ring.ACTIVE, 7), c05One("a", 2, ring.ACTIVE), c05One("b", 3, ring.ACTIVE, 7)}
+	c05EmitOrder(e, h, []int{0, 1, 2}, []int{0, 2, 1})
+	// random sets of 2-4 single-instance updates over the tiny token space, two random orders
+	for n := 0; n < 400*e.scale; n++ {
+		k := 2 + r.intn(3)
+		ups := make([]*ring.Desc, k)
+		for i := range ups {
+			st := pick(r, allStates)
+			var toks []uint32
+			for j, nt := 0, r.intn(3); j < nt; j++ {
+				toks = append(toks, uint32(1+r.intn(4)))
+			}
+			ups[i] = c05One("i"+strconv.Itoa(r.intn(3)), int64(1+r.intn(3)), st, toks...)
+		}
+		perm := func() []int {
+			p := make([]int, k)
+			for i := range p {
+				p[i] = i
+			}
+			for i := k - 1; i > 0; i-- {
+				j := r.intn(i + 1)
+				p[i], p[j] = p[j], p[i]
+			}
+			return p
+		}
+		c05EmitOrder(e, ups, perm(), perm())
+	}
 }
